@@ -31,6 +31,9 @@ type Ctx struct {
 	ModFuncs  []*ssa.Function         // every function with a body in module packages (incl. closures), sorted
 	inMod     map[*ssa.Package]bool
 	modPath   string
+	cdMemo    map[*ssa.Function][]paramDom
+	cdOpen    map[*ssa.Function]bool
+	postOpen  map[*ssa.Function]bool
 	cgCache   *callGraph
 	effCache  map[*ssa.Function]*funcEffects
 	fieldTab  map[string]*fieldStores
